@@ -74,7 +74,12 @@ pub fn base_weights(prop: &str) -> Vec<u32> {
     let refresh: &[(Op, u32)] = &[(RequestRefresh, 5), (Deliver, 6), (Publish, 3)];
     let edits: &[(Op, u32)] = &[(AddAttr, 3), (DelAttr, 3), (RenameAttr, 2), (AddDim, 1), (DelDim, 1), (Update, 5), (DeriveMpk, 1)];
     match prop {
-        "C01" | "C02" => set(stat),
+        "C01" | "C02" => {
+            set(stat);
+            // crash-restart of any node: the static property must not depend on whether an
+            // object is the original or its deserialized copy
+            set(&[(Reload, 2)]);
+        }
         "C11" => {
             set(stat);
             set(refresh);
